@@ -11,6 +11,7 @@ CONSTANTS
   TracerStyles = {"none", "native", "calls"}
   Threadeds = {FALSE}
   Givens = {}
+  Blockeds = {"none"}
   Flags = {"tracer_conditional_restore"}
 INVARIANT Restored
 INVARIANT Contained
